@@ -264,8 +264,8 @@ func extractTermsAux(ctx *Context, x interface{}, terms StringSet, depth int) {
 
 func (s *IndexedState) Add(ctx *Context, id string, x Map) (string, error) {
 	Log(DEBUG, ctx, "IndexedState.Add", "state", s.Name, "factx", x, "id", id)
-	delete(s.cachedRules, id)
 	s.slock(ctx, false)
+	delete(s.cachedRules, id)
 	id, err := s.add(ctx, id, x)
 	var js []byte
 	if err == nil {
@@ -273,19 +273,21 @@ func (s *IndexedState) Add(ctx *Context, id string, x Map) (string, error) {
 		// instead of a 'ttl') so that a reload reproduces it.
 		js, err = json.Marshal(s.IdToFact[id])
 	}
+	if err == nil {
+		// Write through while we still hold the lock, so that
+		// concurrent changes to an id reach storage in the order
+		// in which they reached memory.
+		d := Pair{[]byte(id), js}
+		if err = s.Store.Add(ctx, s.Name, &d); err != nil {
+			Log(WARN, ctx, "IndexedState.Add", "state", s.Name, "factjs", string(js), "id", id, "error", err)
+		}
+	}
 	s.sunlock(ctx, false)
 
 	if nil != err {
 		return "", err
 	}
-	d := Pair{[]byte(id), js}
-
-	err = s.Store.Add(ctx, s.Name, &d)
-	if err != nil {
-		Log(WARN, ctx, "IndexedState.Add", "state", s.Name, "factjs", string(js), "id", id, "error", err)
-		return "", err
-	}
-	return id, err
+	return id, nil
 }
 
 func (s *IndexedState) add(ctx *Context, id string, x Map) (string, error) {
